@@ -32,4 +32,4 @@ DELIVERABLES in {wt}-out/ (create the directory):
   patch.diff   - `git -C {wt} diff` of your change (library files only)
   demo.cpp     - a small stand-alone program that exits 0 and prints PASS on the unchanged library and exits non-zero / prints FAIL with your change; it should exercise the library the way a user would and check the property with an independent computation
   meta.json    - {{"property": "{pid}", "files_changed": [...], "what": "<one paragraph: what the change does>", "needs_to_manifest": "<the specific input/sequence/configuration needed>", "unit_tests_run": ["<test file> -> PASSED", ...], "demo_build": "<exact build command>", "demo_result_unchanged": "...", "demo_result_changed": "..."}}
-Verify everything yourself: build and run the nearest 2-4 existing unit tests WITH your change (they must pass), run demo.cpp with the change (must fail) and after `git stash` without it (must pass), then `git stash pop` so the worktree contains the change again. Your final message: the contents of meta.json plus the patch.""")
+Verify everything yourself: build and run the nearest 2-4 existing unit tests WITH your change (they must pass), run demo.cpp with the change (must fail) and with the change reverted (must pass), then re-apply it (do NOT use git stash - the stash is shared between all worktrees of the repository and other engineers work in parallel; use `git diff > /tmp/my.diff; git apply -R /tmp/my.diff; ...; git apply /tmp/my.diff`) so the worktree contains the change again. Your final message: the contents of meta.json plus the patch.""")
